@@ -331,9 +331,9 @@ package stdlibspec
 // strings.Builder: ghost content sbc[b]; app1(s, c) = s followed by the byte c
 //@ ghost heap sbc *strings.Builder string
 //@ spec func app1(s string, c byte) string
-//@ axiom app1-len: forall s string, c byte :: len(app1(s, c)) == len(s) + 1
-//@ axiom strOf-empty: forall a Arr[int,byte], off int :: strOf(a, off, 0) == ""
-//@ axiom strOf-snoc: forall a Arr[int,byte], off int, n int :: 0 <= n && n < 4611686018427387904 ==> app1(strOf(a, off, n), a[off + n]) == strOf(a, off, n + 1)
+//@ axiom app1-len: forall s string, c byte :: len(s) < 4611686018427387903 ==> len(app1(s, c)) == len(s) + 1
+//@ axiom strOf-empty: forall a Arr[int,byte], off int {strOf(a, off, 0)} :: strOf(a, off, 0) == ""
+//@ axiom strOf-snoc: forall a Arr[int,byte], off int, n int {app1(strOf(a, off, n), a[off + n])} :: 0 <= n && n < 4611686018427387904 ==> app1(strOf(a, off, n), a[off + n]) == strOf(a, off, n + 1)
 //@ extern (*strings.Builder).WriteByte(b, c)
 //@   requires b != nil
 //@   assigns sbc[b]
@@ -394,7 +394,7 @@ package stdlibspec
 //@ spec func errIs(err error, target error) bool
 //@ spec func strOf(a Arr[int,byte], off int, n int) string
 //@ spec func bytesOf(b []byte) string = strOf(elemsArr(b), sliceOff(b), len(b))
-//@ axiom empty-concat: forall a Arr[int,byte], off int, n int :: "" + strOf(a, off, n) == strOf(a, off, n)
+//@ axiom empty-concat: forall a Arr[int,byte], off int, n int {"" + strOf(a, off, n)} :: "" + strOf(a, off, n) == strOf(a, off, n)
 
 //@ extern (*os.Root).Open(r, name)
 //@   pure
@@ -453,7 +453,7 @@ package stdlibspec
 //@ spec func sepFree(s string) bool = forall i int :: 0 <= i && i < len(s) ==> s[i] != 47 # opaque
 //@ lemma sepFree-substring: forall s string, i int, j int :: sepFree(s) && 0 <= i && i <= j && j <= len(s) ==> sepFree(s[i:j])
 //@   reveal sepFree
-//@ lemma sepFree-concat: forall a string, b string :: sepFree(a) && sepFree(b) ==> sepFree(a + b)
+//@ lemma sepFree-concat: forall a string, b string :: sepFree(a) && sepFree(b) && len(a) < 2305843009213693952 && len(b) < 2305843009213693952 ==> sepFree(a + b)
 //@   reveal sepFree
 //@ lemma sepFree-markers: sepFree("~") && sepFree(".tmp-")
 //@   reveal sepFree
@@ -462,10 +462,12 @@ package stdlibspec
 //@   reveal sepFree
 //@ axiom b64-one-component: forall s string :: b64Text(s) ==> pathLen(s) == 1 && pathPart(s, 0) == s
 //@ axiom path-base-is-last-part: forall p string :: pathLen(p) >= 1 ==> pathBase(p) == pathPart(p, pathLen(p)-1)
+// b64stdOf(b): RawStdEncoding of the bytes of b (a macro, so that functions that do not talk about it do not pull in the byte-string axioms)
+//@ spec func b64stdOf(b []byte) string = b64std(bytesOf(b))
 //@ extern (*encoding/base64.Encoding).EncodeToString(enc, src)
 //@   pure
 //@   ensures b64Text(result)
-//@   ensures enc == base64.RawStdEncoding ==> result == b64std(bytesOf(src))
+//@   ensures enc == base64.RawStdEncoding ==> result == b64stdOf(src)
 //@ extern path/filepath.Join(elem)
 //@   pure
 //@   requires forall j int :: 0 <= j && j < len(elem) ==> len(elem[j]) > 0
@@ -477,7 +479,7 @@ package stdlibspec
 // crypto/rand.Text: 26 characters of the base32 alphabet.
 //@ extern crypto/rand.Text
 //@   pure
-//@   ensures sepFree(result)
+//@   ensures sepFree(result) && len(result) == 26
 
 // ---------------------------------------------------------------------------
 // crypto/cipher.AEAD, seen as an authenticated-encryption oracle (C17). sealed(g, nonce, pt)
@@ -488,8 +490,8 @@ package stdlibspec
 //@ spec func nonceSize(g cipher.AEAD) int
 //@ ghost var lastRead string
 //@ axiom nonce-size-positive: forall g cipher.AEAD :: nonceSize(g) > 0 && nonceSize(g) < 4096
-//@ axiom strOf-len: forall a Arr[int,byte], off int, n int :: 0 <= n && n < 4611686018427387904 ==> len(strOf(a, off, n)) == n
-//@ axiom strOf-split: forall a Arr[int,byte], off int, n int, k int :: 0 <= k && k <= n && n < 4611686018427387904 && 0 <= off && off < 4611686018427387904 ==> strOf(a, off, n) == strOf(a, off, k) + strOf(a, off + k, n - k)
+//@ axiom strOf-len: forall a Arr[int,byte], off int, n int {strOf(a, off, n)} :: 0 <= n && n < 4611686018427387904 ==> len(strOf(a, off, n)) == n
+//@ axiom strOf-split: forall a Arr[int,byte], off int, n int, k int {strOf(a, off, n), strOf(a, off, k)} :: 0 <= k && k <= n && n < 4611686018427387904 && 0 <= off && off < 4611686018427387904 ==> strOf(a, off, n) == strOf(a, off, k) + strOf(a, off + k, n - k)
 //@ iface crypto/cipher.AEAD.NonceSize(g)
 //@   pure
 //@   ensures result == nonceSize(g)
